@@ -25,7 +25,7 @@ def value(rng):
     return s
 
 
-def attrs(rng, n=None, odd=False, eqsp=0.04):
+def attrs(rng, n=None, odd=False, eqsp=0.04, sq_empty=0.0):
     if n is None:
         n = rng.choice([1, 1, 1, 2, 2, 3])
     names = rng.sample(ATTR_NAMES, n)
@@ -36,7 +36,10 @@ def attrs(rng, n=None, odd=False, eqsp=0.04):
         q = rng.choice(QUOTES)
         v = value(rng)
         if q == '"' and rng.random() < 0.05:
-            v = ""          # '' would be the italic token wherever attributes are not inside an HTML tag
+            v = ""
+        elif q == "'" and rng.random() < sq_empty:
+            v = ""          # a='' : the same empty value in the second quoting style (own tagged input class:
+            #                 outside HTML tags the two apostrophes are also the italic token)
         out.append([nm, v, q, " = " if rng.random() < eqsp else "="])
     return out
 
@@ -60,7 +63,16 @@ def text(rng, cls=None):
         return str(rng.randrange(1000))
     if cls == "punct":
         return w + rng.choice([".", ",", ")", "(", "/", "-", ";", "?", "*", "#", "+"]) + word(rng)
+    if cls == "bang2":          # only ever placed inside the argument of a call / link (there it is plain text)
+        return w + "!!" + word(rng)
+    if cls == "nlbang":
+        return w + "\n!" + word(rng)
+    if cls == "hline":
+        return w + "\n----\n" + word(rng)
     return w + rng.choice(["é", "語", "ß", "Ж"]) + word(rng)
+
+
+PFUNCS = ["#if", "#ifeq", "#switch", "#expr", "#iferror", "lc", "uc", "lcfirst", "ucfirst", "urlencode", "padleft", "#tag"]
 
 
 def tname(rng):
@@ -77,7 +89,7 @@ def arg_content(rng, depth, in_template, in_link=False):
     if r < 0.12:
         return []
     if r < 0.5 or depth <= 0:
-        s = text(rng, rng.choice(["w", "ww", "num", "bang", "uni", "colon", "eq", "punct"]))
+        s = text(rng, rng.choice(["w", "ww", "num", "bang", "uni", "colon", "eq", "punct"] * 8 + ["bang2", "nlbang", "hline"]))
         if rng.random() < 0.15:
             s = rng.choice([" ", "\n", "  "]) + s
         if rng.random() < 0.15:
@@ -87,7 +99,7 @@ def arg_content(rng, depth, in_template, in_link=False):
     for i in range(rng.randint(1, 3)):
         if out and out[-1][0] != "x":
             out.append(["x", " " + word(rng) + " "])
-        out.append(item(rng, depth - 1, in_template=in_template, allow=(("x", "T", "L", "A") if in_link else ("x", "T", "L", "A", "U")) if in_template
+        out.append(item(rng, depth - 1, in_template=in_template, allow=(("x", "T", "L", "A", "P") if in_link else ("x", "T", "L", "A", "U", "P")) if in_template
                         else ("x", "T", "L", "I", "B", "H")))
     return out
 
@@ -108,6 +120,14 @@ def template(rng, depth, nargs=None):
     return ["T", nm, args]
 
 
+def parserfn(rng, depth, nargs=None):
+    """{{name:arg|arg...}} -- a call whose name is one of the parser-function names"""
+    if nargs is None:
+        nargs = rng.choice([1, 1, 2, 2, 3, 4])
+    args = [arg_content(rng, depth, True) for _ in range(max(1, nargs))]
+    return ["P", rng.choice(PFUNCS), args]
+
+
 def link(rng, depth, nargs=None, in_template=False):
     if nargs is None:
         nargs = rng.choice([0, 0, 1, 1, 1, 2, 3, 4, 5])
@@ -123,8 +143,19 @@ def link(rng, depth, nargs=None, in_template=False):
     return ["L", args]
 
 
-def url(rng, punct=False):
-    u = rng.choice(["http://", "https://", "//", "http://", "https://"]) + word(rng) + "." + rng.choice(["org", "example", "x1"])
+def url_starts():
+    """protocols the package declares for bracketed external links (domain table, like the tag table)"""
+    from wikitextprocessor.common import URL_STARTS
+    return list(URL_STARTS)
+
+
+def url(rng, punct=False, scheme=None):
+    if scheme is None:
+        scheme = rng.choice(["http://", "https://", "//", "http://", "https://"]) if rng.random() < 0.88 else rng.choice(url_starts())
+    if not scheme.endswith("//"):           # mailto:
+        u = scheme + word(rng) + "@" + word(rng) + ".org"
+        return u + (rng.choice([".", "!", "?", ","]) if punct else "")
+    u = scheme + word(rng) + "." + rng.choice(["org", "example", "x1"])
     if rng.random() < 0.7:
         u += "/" + word(rng)
         if rng.random() < 0.3:
@@ -134,15 +165,18 @@ def url(rng, punct=False):
     return u
 
 
-def extlink(rng, depth, punct=False):
-    u = url(rng, punct)
+def extlink(rng, depth, punct=False, scheme=None, rich=True):
+    u = url(rng, punct, scheme)
     r = rng.random()
     if r < 0.25:
         return ["U", u, None]
     c = [["x", text(rng, rng.choice(["w", "ww", "ww", "bang", "num"]))]]
     if depth > 0 and rng.random() < 0.3:
         c.append(["x", " "])
-        c.append(item(rng, 0, allow=("I", "B")))
+        it = item(rng, 0, allow=("I", "B", "H", "T", "br") if rich else ("I", "B", "T"))
+        if it[0] == "H" and len(it) > 5 and "\n" in it[5]:
+            it[5] = "\t"         # a bracketed external link is written on one line
+        c.append(it)
         c.append(["x", " " + word(rng)])
     return ["U", u, c]
 
@@ -158,6 +192,8 @@ def element(rng, depth, tag=None, nattrs=None, odd=False, content=None):
     elif r < 0.1:
         tag = tag[0].upper() + tag[1:]
     it = ["H", tag, at, content, " " if rng.random() < 0.05 else ""]
+    if at and rng.random() < 0.06:
+        it.append(rng.choice(["\n", "\t", "  ", " \n", "\n "]))      # white space between tag name / attributes
     return it
 
 
@@ -179,10 +215,12 @@ def item(rng, depth, in_template=False, allow=("x", "T", "L", "U", "B", "I", "H"
     if k == "A":
         n = rng.randint(1, 2)
         return ["A", [[["x", rng.choice([word(rng), str(rng.randint(1, 9))])]]] + [arg_content(rng, 0, True) for _ in range(n - 1)]]
+    if k == "P":
+        return parserfn(rng, depth)
     if k == "L":
         return link(rng, depth, in_template=in_template)
     if k == "U":
-        return extlink(rng, 0 if in_template else depth)
+        return extlink(rng, 0 if in_template else depth, rich=not in_template)
     if k in ("B", "I"):
         c = [["x", text(rng, rng.choice(["w", "ww", "eq", "bang"]))]]
         if depth > 0 and rng.random() < 0.3:
@@ -217,7 +255,7 @@ def glue(items):
     return out
 
 
-def inline(rng, depth, n=None, allow=("x", "T", "L", "U", "B", "I", "H", "br")):
+def inline(rng, depth, n=None, allow=("x", "T", "L", "U", "B", "I", "H", "br", "P", "A")):
     n = n or rng.randint(1, 4)
     items = []
     nb = 0
@@ -234,7 +272,7 @@ def inline(rng, depth, n=None, allow=("x", "T", "L", "U", "B", "I", "H", "br")):
 # ---------------------------------------------------------------- cell catalogue
 
 CELL_CLASSES = ["text", "text2", "eq", "bang", "colon", "num", "punct", "T0", "Tpos", "Tnamed", "Tmix", "L", "Lpipe", "Lns",
-                "U", "B", "I", "BI", "span", "spanattr", "br", "empty", "mix"]
+                "U", "B", "I", "BI", "span", "spanattr", "br", "empty", "mix", "Pfn", "callbang2", "Aref"]
 
 
 def cell_content(rng, cls):
@@ -283,6 +321,22 @@ def cell_content(rng, cls):
         return [["x", w], void(rng), ["x", word(rng)]]
     if cls == "empty":
         return []
+    if cls == "Pfn":
+        return [["P", rng.choice(PFUNCS), [[["x", w]]] + [[["x", word(rng)]] for _ in range(rng.randint(0, 2))]]]
+    if cls == "callbang2":
+        # "!!" / a line starting with "!" inside the argument of a call or link: part of that argument
+        cls = rng.choice(["Pbang2", "Pbang2", "Tbang2", "Lbang2", "Abang2"])
+        b = [["x", text(rng, rng.choice(["bang2", "bang2", "nlbang"]))]]
+        if cls == "Abang2":
+            return [["A", [[["x", str(rng.randint(1, 9))]], b]]]
+        if cls == "Pbang2":
+            return [["P", rng.choice(PFUNCS), rng.choice([[b], [[["x", w]], b], [[["x", w]], b, [["x", word(rng)]]]])]]
+        if cls == "Tbang2":
+            return [["T", [["x", tname(rng)]], [rng.choice([["p", b], ["n", word(rng), b]])] + ([["p", [["x", w]]]] if rng.random() < 0.5 else [])]]
+        return [["L", [[["x", w]], b]]]
+    if cls == "Aref":
+        d = [["x", text(rng, rng.choice(["w", "ww", "eq", "num"]))]]
+        return [["A", [[["x", str(rng.randint(1, 9))]]] + ([d] if rng.random() < 0.8 else [])]]
     if cls == "mix":
         c = inline(rng, 1, n=rng.randint(2, 3))
         if c and c[0][0] == "x" and c[0][1][:1] in "-+}*#:; ":
@@ -296,7 +350,9 @@ def cell(rng, h, cls=None, pattr=0.35, empty_ok=True):
         cls = rng.choice(CELL_CLASSES)
         if cls == "empty" and (not empty_ok or rng.random() < 0.5):
             cls = "text"
-    c = {"h": h, "attr": attrs(rng) if rng.random() < pattr else [], "pad": rng.choice(["", " ", " "]),
+        if cls == "callbang2" and rng.random() < 0.5:
+            cls = "Pfn"
+    c = {"h": h, "attr": attrs(rng, sq_empty=0.02) if rng.random() < pattr else [], "pad": rng.choice(["", " ", " "]),
          "content": cell_content(rng, cls), "nl": True, "sep": "||", "cls": cls}
     if not c["content"] and c["attr"]:
         c["pad"] = " "      # "| attrs |" + "||" would fuse into the ||| run (ambiguous in every reading)
@@ -326,10 +382,10 @@ def table(rng, r=None, c=None, style=None, cap=None, maxdim=4, classes=None):
         for j in range(c):
             h = hrow if style == "dbl" else (rng.random() < 0.35)
             cells.append(cell(rng, h, cls=(rng.choice(classes) if classes else None)))
-        rows.append({"attr": attrs(rng) if rng.random() < 0.3 else [], "cells": layout(rng, cells, style)})
+        rows.append({"attr": attrs(rng, sq_empty=0.02) if rng.random() < 0.3 else [], "cells": layout(rng, cells, style)})
     if cap is None:
         cap = rng.random() < 0.4
-    sp = {"kind": "table", "style": style, "tattr": attrs(rng) if rng.random() < 0.5 else [],
+    sp = {"kind": "table", "style": style, "tattr": attrs(rng, sq_empty=0.02) if rng.random() < 0.5 else [],
           "cap": None, "capattr": [], "rows": rows, "marker": rng.random() < 0.85,
           "indent": "",     # leading blanks before the markers are not part of the statement (kept for replay only)
           "pre": rng.choice(["", "", word(rng) + " intro\n", word(rng) + "\n\n"]),
@@ -337,7 +393,7 @@ def table(rng, r=None, c=None, style=None, cap=None, maxdim=4, classes=None):
     if cap:
         sp["cap"] = cell_content(rng, rng.choice(["text", "text2", "B", "I", "L", "Lpipe", "Tpos", "Tnamed", "span", "eq", "bang"]))
         if rng.random() < 0.2:
-            sp["capattr"] = attrs(rng, 1)
+            sp["capattr"] = attrs(rng, 1, sq_empty=0.02)
     return sp
 
 
@@ -413,13 +469,17 @@ def html_case(rng, tag, nattrs, quote=None, content_cls=None, parent=None, odd=F
     return {"kind": "inline", "focus": "html", "items": items, "tag": tag, "nattrs": nattrs, "parent": parent, "cc": cc}
 
 
-def call_case(rng, focus, depth=2, nargs=None, punct=False):
+def call_case(rng, focus, depth=2, nargs=None, punct=False, scheme=None):
     if focus == "template":
         it = template(rng, depth, nargs)
+    elif focus == "parserfn":
+        it = parserfn(rng, depth, nargs)
+    elif focus == "targ":
+        it = item(rng, depth, allow=("A",))
     elif focus == "link":
         it = link(rng, depth, nargs)
     elif focus == "extlink":
-        it = extlink(rng, 1, punct=punct)
+        it = extlink(rng, 1, punct=punct, scheme=scheme)
     else:
         raise ValueError(focus)
     pre = rng.choice(["", word(rng) + " ", word(rng) + " ("])
